@@ -43,9 +43,10 @@ Proof.
   unfold instantiate in Ei. destruct e as [s | [| h args]]; try (injection Ei as <-; assumption).
   destruct (Nat.eqb (length (d_formals d)) (length args)); [|injection Ei as <-; assumption].
   destruct (bind_formals (d_formals d) args) as [m|] eqn:Em; [|discriminate Ei].
-  assert (Hres : res = subst_map m (d_body d)).
-  { destruct m; injection Ei as <-; [now rewrite subst_map_nil | reflexivity]. }
-  rewrite Hres. apply wf_subst_map; [|assumption].
+  assert (Hres : res = subst_map m (d_body d) \/ res = T (h :: args)).
+  { destruct m; [injection Ei as <-; left; now rewrite subst_map_nil|]. cbv zeta in Ei.
+    destruct (_ || _) in Ei; injection Ei as <-; [now right | now left]. }
+  destruct Hres as [Hres | Hres]; rewrite Hres; [|assumption]. apply wf_subst_map; [|assumption].
   intros k a Hka. apply (bind_formals_In _ _ _ _ _ Em) in Hka.
   cbn [wf forallb] in Hw. apply andb_true_iff in Hw as [_ Hw]. rewrite forallb_forall in Hw. now apply Hw.
 Qed.
